@@ -1005,7 +1005,7 @@ Qed.
 
 (* the complete script: shebang, helper definitions, then the code *)
 Lemma helpers_wf :
-  forall a b c : bool, exists stk', check ([LShebang] ++ (if a then sah_helper else []) ++ (if b then sch_helper else []) ++ (if c then ssh_helper else [])) [FTop false] = Some stk'
+  forall a b c : bool, exists stk', check ([LShebang; locale_line] ++ (if a then sah_helper else []) ++ (if b then sch_helper else []) ++ (if c then ssh_helper else [])) [FTop false] = Some stk'
                              /\ stk' <> [] /\ (stk' = [FTop false] \/ stk' = [FTop true]).
 Proof. intros [] [] []; eexists; (split; [vm_compute; reflexivity|split; [discriminate|auto]]). Qed.
 
@@ -1025,11 +1025,11 @@ Proof.
   change (b_start (cv_program_end bstate atom bash_conv s1))
     with (b_start s1 ++ (if b_sah s1 then sah_helper else []) ++ (if b_sch s1 then sch_helper else []) ++ (if b_ssh s1 then ssh_helper else [])).
   change (b_code (cv_program_start bstate atom bash_conv b_init)) with (@nil line) in Ec.
-  change (b_start (cv_program_start bstate atom bash_conv b_init)) with [LShebang] in Es. simpl app in Ec.
+  change (b_start (cv_program_start bstate atom bash_conv b_init)) with [LShebang; locale_line] in Es. simpl app in Ec.
   split; [|split; [reflexivity|rewrite Ec; exact C]].
   unfold well_formed. rewrite Es, Ec. cbn [b_start b_code]. cbn [app].
-  change (LShebang :: ((if b_sah s1 then sah_helper else []) ++ (if b_sch s1 then sch_helper else []) ++ (if b_ssh s1 then ssh_helper else [])) ++ ls)
-    with (([LShebang] ++ (if b_sah s1 then sah_helper else []) ++ (if b_sch s1 then sch_helper else []) ++ (if b_ssh s1 then ssh_helper else [])) ++ ls).
+  change (LShebang :: locale_line :: ((if b_sah s1 then sah_helper else []) ++ (if b_sch s1 then sch_helper else []) ++ (if b_ssh s1 then ssh_helper else [])) ++ ls)
+    with (([LShebang; locale_line] ++ (if b_sah s1 then sah_helper else []) ++ (if b_sch s1 then sch_helper else []) ++ (if b_ssh s1 then ssh_helper else [])) ++ ls).
   rewrite check_app.
   destruct (helpers_wf (b_sah s1) (b_sch s1) (b_ssh s1)) as (stk' & E1 & N1 & T1). rewrite E1.
   destruct (K stk' N1) as (stk2 & E2 & M2 & N2). rewrite E2.
